@@ -123,7 +123,7 @@
     }
 
     // ---- the observable itself, BOUNDED and native: literal form versus variable form through the real engine
-//# ob name=literal_variable_native role=native_bounded fn=compiler::ast::Expr::as_const+compiler::codegen kind=bounded bound="binary operators {+,-,*,/,//,%,**,~,and,or,in,==,!=,<,<=,>,>=} x 27 literals (integer boundaries 2^63/2^64/2^127/2^128-1, 0, +-1, floats, strings, booleans, none, lists, maps) for both operands, every subset of the two literals hoisted into variables; unary -/not; 3-link comparison chains over 6 literals; exhaustive (about 5*10^4 renders)" stmt="replacing any literal by a variable bound to the same value never changes the rendered output and never turns success into failure or vice versa; a failing constant expression does not fail at load time, only when executed"
+//# ob name=literal_variable_native role=native_bounded fn=compiler::ast::Expr::as_const+compiler::codegen kind=bounded bound="binary operators {+,-,*,/,//,%,**,~,and,or,in,==,!=,<,<=,>,>=} x 27 literals (integer boundaries 2^63/2^64/2^127/2^128-1, 0, +-1, floats, strings, booleans, none, lists, maps) for both operands, every subset of the two literals hoisted into variables; unary -/not; 3-link comparison chains over 6 literals; map literals with 2 entries over 5 keys (equal keys included: the same key twice, 1 / 1.0 / true) x 5 values and list / tuple / nested literals with 3 items, every subset of the slots hoisted, 6 + 9 observers; exhaustive (about 1.2*10^5 renders)" stmt="replacing any literal by a variable bound to the same value never changes the rendered output and never turns success into failure or vice versa; a failing constant expression does not fail at load time, only when executed"
     fn literal_variable_native() {
         use crate::Environment;
         let lits: &[&str] = &[
@@ -192,5 +192,44 @@
                 n += 1;
             }
         }}
-        assert!(n > 40_000, "box shrank: {n}");
+        // container literals: every subset of the key / value / item slots hoisted into variables; keys include equal
+        // ones (the same key twice, 1 and 1.0 and true) so that the folder's and the VM's insertion order are compared
+        let keys: &[&str] = &["'a'", "'b'", "1", "1.0", "true"];
+        let vals: &[&str] = &["1", "2", "'x'", "none", "[1]"];
+        for k1 in keys { for v1 in vals { for k2 in keys { for v2 in vals {
+            let slots = [*k1, *v1, *k2, *v2];
+            let names = ["p", "q", "r", "s"];
+            let ctx_all = crate::context! { p => value_of(k1), q => value_of(v1), r => value_of(k2), s => value_of(v2) };
+            for obs in ["M", "M|length", "M[K]", "M|items|list", "M|list", "K in M"] {
+                let mk = |mask: u32| -> String {
+                    let t: Vec<&str> = (0..4).map(|i| if mask & (1 << i) != 0 { names[i] } else { slots[i] }).collect();
+                    let m = format!("{{{}: {}, {}: {}}}", t[0], t[1], t[2], t[3]);
+                    format!("{{{{ {} }}}}", obs.replace('M', &format!("({m})")).replace('K', t[0]))
+                };
+                let reference = render(&mk(15), ctx_all.clone());
+                for mask in 0..15u32 {
+                    let src = mk(mask);
+                    let got = render(&src, ctx_all.clone());
+                    assert!(got == reference, "{src}: {got:?} but the all-variable form gives {reference:?}");
+                    n += 1;
+                }
+            }
+        }}}}
+        for a in vals { for b in vals { for c in vals {
+            let ctx_all = crate::context! { p => value_of(a), q => value_of(b), r => value_of(c) };
+            for shape in ["[A, B, C]", "(A, B, C)", "[A, [B, C]]", "[A, B, C][1]", "(A, B, C)|last", "[A, B, C]|length", "B in [A, B, C]", "[A, B] + [C]", "{'k': [A, B], 'l': (C,)}"] {
+                let mk = |mask: u32| {
+                    let t = |i: usize, lit: &str, name: &str| if mask & (1 << i) != 0 { name.to_string() } else { lit.to_string() };
+                    format!("{{{{ {} }}}}", shape.replace('A', &t(0, a, "p")).replace('B', &t(1, b, "q")).replace('C', &t(2, c, "r")))
+                };
+                let reference = render(&mk(7), ctx_all.clone());
+                for mask in 0..7u32 {
+                    let src = mk(mask);
+                    let got = render(&src, ctx_all.clone());
+                    assert!(got == reference, "{src}: {got:?} but the all-variable form gives {reference:?}");
+                    n += 1;
+                }
+            }
+        }}}
+        assert!(n > 90_000, "box shrank: {n}");
     }
